@@ -47,6 +47,10 @@ class Run:
         self.dir = os.path.join(WORK, "%s-%s%s" % (pid, tier, ("-" + tag) if tag else ""))
         shutil.rmtree(self.dir, ignore_errors=True)
         os.makedirs(self.dir, exist_ok=True)
+        self.snap = os.path.join(self.dir, "spec-snapshot")
+        os.makedirs(self.snap)
+        for f in glob.glob(os.path.join(SPEC, "*.tla")):
+            shutil.copy(f, self.snap)
         self.vh = None
         self.violations = []      # dicts: pred, line, trace file, replay path
         self.known_hits = []
@@ -90,12 +94,8 @@ class Run:
 
     # ---------------------------------------------------------------- TLC
     def spec_dir(self, name):
-        # the specification is snapshotted once per run (a run must not see half of a later edit)
-        snap = os.path.join(self.dir, "spec-snapshot")
-        if not os.path.isdir(snap):
-            os.makedirs(snap)
-            for f in glob.glob(os.path.join(SPEC, "*.tla")):
-                shutil.copy(f, snap)
+        # (the specification was snapshotted when the run started: a run must not see half of a later edit)
+        snap = self.snap
         d = os.path.join(self.dir, name)
         os.makedirs(d, exist_ok=True)
         for f in glob.glob(os.path.join(snap, "*.tla")):
